@@ -8,7 +8,10 @@
             frames: class Frame, Stable R x, Keeps π, Stable.* closure lemmas, tactic `stable [lemmas]`;
             randomness: EnvStep, randRead_run, randomInto_run, randRead_stable.
   Part A  life cycle: akeHasFinished_run / _none / _panic_iff / _spec, sendKept + *_sendFrame,
-            endSession_notEncrypted / _encrypted / _spec, processDisconnectedTLV_run,
+            endSession_notEncrypted / _encrypted / _spec, endedConv, endSession_encrypted_run /
+            _notEncrypted_run / _forgets (repaired code), processDisconnectedTLV_run,
+            startAuthenticate_question_nul / _too_long / _bad_question, retransmitOrReveal,
+            retransmitAfterCompletedExchange_skip / _skip_run / _same / _completed (repaired code),
             send_finished, send_requireEncryption, send_disabled, receive_disabled, send_plain,
             send_plain_roundtrip.
   Part B  instance tags: generateInstanceTag_noop / _run / _tag, verifyInstanceTags_run (exact) and its
@@ -527,15 +530,20 @@ theorem createSerializedDataMessage_sendFrame (K : Crypto) (m : Bytes) (f : Nat)
   unfold createSerializedDataMessage wrapMessageHeader updateLastSent fragEncode
   stable [messageHeader_sendFrame, genDataMsgWithFlag_sendFrame]
 
-/-- A2, not encrypted (exact): nothing is sent, no event, only the state reset -/
+/-- A2, not encrypted (exact): nothing is sent, no event, only the state reset — which (repaired code)
+    includes the SMP state in every message state, and the resend state unless it holds texts still
+    waiting for a session to start (`mayRetransmit = .exact`) -/
 theorem endSession_notEncrypted (K : Crypto) (s : MState) (h : s.conv.msgState ≠ .encrypted) :
     runM (endSession K) s = .ok (.ok ([], none),
       { s with conv := { s.conv with
+          smp := {}
+          resendMsgs := if s.conv.mayRetransmit = .exact then s.conv.resendMsgs else []
+          mayRetransmit := if s.conv.mayRetransmit = .exact then .exact else .no
           lastMessageStateChange := none, ake := none, msgState := .plainText
           keys := { s.conv.keys with ourCur := none, ourPrev := none,
                                      theirCur := s.conv.keys.theirCur.map (fun _ => 0) } } }) := by
   unfold endSession
-  simp [beq_encrypted, h]
+  by_cases he : s.conv.mayRetransmit = .exact <;> simp [beq_encrypted, h, he, smpWipe]
 
 
 /-- A2, encrypted: whatever the data-message machinery does (it may fail; a panic is the only other outcome),
@@ -571,14 +579,14 @@ theorem endSession_encrypted (K : Crypto) (s : MState) (h : s.conv.msgState = .e
       obtain ⟨hr1, hr2⟩ := hr
       subst hr2
       refine ⟨⟨_, _, hr1.symm⟩, ?_⟩
-      simp [hk]
+      by_cases he : s2.conv.mayRetransmit = .exact <;> simp [hk, he]
     | error e =>
       simp only [bindM_error, bindM_ok, runM_pure, catchM_error, runM_bind, runM_modc, runM_secGoneInsecure, Res.ok.injEq,
         Prod.mk.injEq] at hr
       obtain ⟨hr1, hr2⟩ := hr
       subst hr2
       refine ⟨⟨_, _, hr1.symm⟩, ?_⟩
-      simp [hk]
+      by_cases he : s2.conv.mayRetransmit = .exact <;> simp [hk, he]
 
 
 /-- A2, in the form asked: for every start state, a non-panicking `endSession` never throws, ends in
@@ -602,6 +610,106 @@ theorem endSession_spec (K : Crypto) (s : MState)
     subst hr2
     exact ⟨⟨_, _, hr1.symm⟩, rfl, rfl, rfl, rfl, rfl, [], by simp, by simp [h], by simp, by simp,
       fun _ => ⟨rfl, hr1.symm⟩⟩
+
+/-! ### repaired code: what `End` forgets (C08) -/
+
+/-- what the last three state updates of `endSession` make of the conversation: the resend state is forgotten
+    unless it holds texts still waiting for a session to start (`mayRetransmit = .exact`: texts queued by `Send`
+    under required encryption while in plaintext, to go out unmarked once a session exists), the message state
+    is plaintext, AKE context and our DH key pairs are gone, the peer's DH value is zeroed -/
+def endedConv (c : Conv) : Conv :=
+  { c with
+    resendMsgs := if c.mayRetransmit = .exact then c.resendMsgs else []
+    mayRetransmit := if c.mayRetransmit = .exact then .exact else .no
+    lastMessageStateChange := none, ake := none, msgState := .plainText
+    keys := { c.keys with ourCur := none, ourPrev := none, theirCur := c.keys.theirCur.map (fun _ => 0) } }
+
+/-- A2, encrypted (exact decomposition): the SMP state is wiped first, then the disconnect message is
+    generated (it may fail: the error is returned, nothing is sent), and whatever came of that the conversation
+    ends as `endedConv` says, with exactly one event, GoneInsecure -/
+theorem endSession_encrypted_run (K : Crypto) (s : MState) (h : s.conv.msgState = .encrypted) :
+    runM (endSession K) s =
+      match runM (createSerializedDataMessage K [] messageFlagIgnoreUnreadable
+          [{ typ := tlvTypeDisconnected, len := 0, value := [] }]) { s with conv := { s.conv with smp := {} } } with
+      | .panic p => .panic p
+      | .ok (v, s2) =>
+        .ok (.ok (match v with
+                  | .ok (ms, _) => (ms, none)
+                  | .error e => ([], some e)),
+          { s2 with conv := endedConv s2.conv, events := s2.events ++ ["sec:0"] }) := by
+  have hb : (s.conv.msgState == MsgState.encrypted) = true := by rw [h]; rfl
+  unfold endSession
+  simp only [runM_bind, runM_getc, bindM_ok, hb, ↓reduceIte, smpWipe, runM_modc, runM_tryCatch]
+  generalize ({ s with conv := { s.conv with smp := {} } } : MState) = s1
+  cases hx : runM (createSerializedDataMessage K [] messageFlagIgnoreUnreadable
+      [{ typ := tlvTypeDisconnected, len := 0, value := [] }]) s1 with
+  | panic p => rfl
+  | ok v =>
+    obtain ⟨v, s2⟩ := v
+    cases v with
+    | ok a =>
+      by_cases he : s2.conv.mayRetransmit = .exact <;>
+        simp [endedConv, he]
+    | error e =>
+      by_cases he : s2.conv.mayRetransmit = .exact <;>
+        simp [endedConv, he]
+
+/-- A2, not encrypted, in the same form -/
+theorem endSession_notEncrypted_run (K : Crypto) (s : MState) (h : s.conv.msgState ≠ .encrypted) :
+    runM (endSession K) s =
+      .ok (.ok ([], none), { s with conv := endedConv { s.conv with smp := {} } }) := by
+  rw [endSession_notEncrypted K s h]
+  rfl
+
+/-- C08 (repaired code): after `End` — from any message state, whether or not the disconnect message could be
+    generated — nothing of an authentication in progress survives (the SMP context is the zero value: no
+    secret, no exponents, no stored messages, no question), and the resend state holds no message text unless it
+    is in the branch `mayRetransmit = .exact` (texts the user sent under required encryption before any session
+    existed, which are still waiting for one): otherwise `resendMsgs = []` and `mayRetransmit = .no`, so the
+    last text of the session that ends is neither kept nor resent later -/
+theorem endSession_forgets (K : Crypto) (s : MState)
+    (r : Except Err (List Bytes × Option Err)) (s' : MState) (hr : runM (endSession K) s = .ok (r, s')) :
+    s'.conv.smp = {} ∧
+    (s'.conv.mayRetransmit = .exact ∨ (s'.conv.mayRetransmit = .no ∧ s'.conv.resendMsgs = [])) := by
+  have hended : ∀ c : Conv, (endedConv c).smp = c.smp ∧
+      ((endedConv c).mayRetransmit = .exact ∨ ((endedConv c).mayRetransmit = .no ∧ (endedConv c).resendMsgs = [])) := by
+    intro c
+    by_cases he : c.mayRetransmit = .exact
+    · exact ⟨rfl, Or.inl (by simp [endedConv, he])⟩
+    · exact ⟨rfl, Or.inr (by simp [endedConv, he])⟩
+  by_cases h : s.conv.msgState = .encrypted
+  · rw [endSession_encrypted_run K s h] at hr
+    have hfr := createSerializedDataMessage_sendFrame K [] messageFlagIgnoreUnreadable
+      [{ typ := tlvTypeDisconnected, len := 0, value := [] }] { s with conv := { s.conv with smp := {} } }
+    cases hx : runM (createSerializedDataMessage K [] messageFlagIgnoreUnreadable
+        [{ typ := tlvTypeDisconnected, len := 0, value := [] }]) { s with conv := { s.conv with smp := {} } } with
+    | panic p => rw [hx] at hr; cases hr
+    | ok v =>
+      obtain ⟨v, s2⟩ := v
+      have hk := hfr v s2 hx
+      simp only [Keeps, sendKept, Prod.mk.injEq] at hk
+      rw [hx] at hr
+      simp only [Res.ok.injEq, Prod.mk.injEq] at hr
+      rw [← hr.2]
+      refine ⟨?_, (hended s2.conv).2⟩
+      show (endedConv s2.conv).smp = _
+      rw [(hended s2.conv).1]
+      exact hk.2.2.2.2.2.2.2.2.2.2.2.2.2.1
+  · rw [endSession_notEncrypted_run K s h] at hr
+    simp only [Res.ok.injEq, Prod.mk.injEq] at hr
+    rw [← hr.2]
+    exact ⟨(hended _).1, (hended _).2⟩
+
+/-- the hypothesis is satisfiable, and the kept branch is real: a fresh conversation ends normally; one with a
+    text waiting under `.exact` keeps it, one with the last text of a session (`.withPrefix` / `.no`) does not -/
+example (K : Crypto) :
+    runM (endSession K) ⟨{ resendMsgs := [[104, 105]], mayRetransmit := .withPrefix }, {}, [], []⟩ =
+      .ok (.ok ([], none), ⟨{ resendMsgs := [], mayRetransmit := .no }, {}, [], []⟩) ∧
+    runM (endSession K) ⟨{ resendMsgs := [[104, 105]], mayRetransmit := .exact }, {}, [], []⟩ =
+      .ok (.ok ([], none), ⟨{ resendMsgs := [[104, 105]], mayRetransmit := .exact }, {}, [], []⟩) := by
+  constructor
+  · rw [endSession_notEncrypted K _ (by decide)]; rfl
+  · rw [endSession_notEncrypted K _ (by decide)]; rfl
 
 /-- A3 (exact): the peer's disconnect TLV -/
 theorem processDisconnectedTLV_run (s : MState) :
@@ -689,13 +797,45 @@ theorem send_plain_roundtrip (K : Crypto) (m : Bytes) (s : MState)
 
 /-! ### repaired code: API arguments that do not fit the 16-bit length field of a TLV -/
 
-/-- `StartAuthenticate` with a question longer than `maxSMPQuestionLength` (= 64354 bytes) fails at once:
-    nothing is sent, no state (not even the SMP state) changes -/
-theorem startAuthenticate_question_too_long (K : Crypto) (question secret : Bytes) (s : MState)
-    (h : question.length > maxSMPQuestionLength) :
-    runM (startAuthenticate K question secret) s = .ok (.error (.other "question too long for a TLV"), s) := by
+/-- repaired code: `StartAuthenticate` with a question containing a NUL byte (the question is written NUL
+    terminated, so the peer would read it cut short and the bytes after it as MPIs) fails at once:
+    nothing is sent, no state (not even the SMP state, the randomness or the events) changes -/
+theorem startAuthenticate_question_nul (K : Crypto) (question secret : Bytes) (s : MState)
+    (h : question.contains 0 = true) :
+    runM (startAuthenticate K question secret) s =
+      .ok (.error (.other "question must not contain a NUL byte"), s) := by
   unfold startAuthenticate
   simp only [h, ↓reduceIte, runM_bind, runM_throw, bindM_error]
+
+example : ([63, 0, 63] : Bytes).contains 0 = true := by decide
+
+/-- `StartAuthenticate` with a question longer than `maxSMPQuestionLength` (= 64354 bytes) fails at once:
+    nothing is sent, no state (not even the SMP state) changes.  (The NUL check comes first in the repaired
+    code, so this error is the one reported for a NUL-free question; see `startAuthenticate_bad_question`
+    for both cases at once.) -/
+theorem startAuthenticate_question_too_long (K : Crypto) (question secret : Bytes) (s : MState)
+    (h0 : question.contains 0 = false) (h : question.length > maxSMPQuestionLength) :
+    runM (startAuthenticate K question secret) s = .ok (.error (.other "question too long for a TLV"), s) := by
+  unfold startAuthenticate
+  simp only [h0, h, Bool.false_eq_true, ↓reduceIte, runM_bind, runM_throw, bindM_error]
+
+/-- the two hypotheses are satisfiable together: 64355 bytes, none of them NUL -/
+example : (List.replicate (maxSMPQuestionLength + 1) (1 : UInt8)).contains 0 = false ∧
+    (List.replicate (maxSMPQuestionLength + 1) (1 : UInt8)).length > maxSMPQuestionLength := by
+  refine ⟨?_, by simp⟩
+  simp [List.contains_eq_mem, List.mem_replicate]
+
+/-- both guards together: a question with a NUL byte or longer than `maxSMPQuestionLength` is refused with
+    an error and the state is exactly the one before the call -/
+theorem startAuthenticate_bad_question (K : Crypto) (question secret : Bytes) (s : MState)
+    (h : question.contains 0 = true ∨ question.length > maxSMPQuestionLength) :
+    ∃ msg, runM (startAuthenticate K question secret) s = .ok (.error (.other msg), s) := by
+  cases h0 : question.contains 0 with
+  | true => exact ⟨_, startAuthenticate_question_nul K question secret s h0⟩
+  | false =>
+    rcases h with h | h
+    · rw [h0] at h; cases h
+    · exact ⟨_, startAuthenticate_question_too_long K question secret s h0 h⟩
 
 /-- `UseExtraSymmetricKey` with more than 65531 bytes of usage data (4 + length would not fit the TLV length
     field) returns an error: no key, no message, no state change -/
@@ -713,6 +853,57 @@ theorem useExtraSymmetricKey_too_long (K : Crypto) (usage : Nat) (usageData : By
 theorem useExtraSymmetricKey_len_exact (usageData : Bytes) (h : ¬ usageData.length > 0xffff - 4) :
     (4 + usageData.length % 65536) % 65536 = 4 + usageData.length := by
   omega
+
+/-! ### repaired code: retransmission only after a completed key exchange (C06, C18) -/
+
+/-- what `retransmitAfterCompletedExchange` does when the message has completed a key exchange: whatever waits
+    for retransmission goes out; if nothing did and MAC keys carried over from the session that was replaced
+    wait in the reveal queue, an empty data message (flag IGNORE_UNREADABLE) is generated to reveal them — an
+    error on that path is swallowed (nothing is sent then) -/
+def retransmitOrReveal (K : Crypto) : M (List Bytes) := do
+  let toSend ← maybeRetransmit K
+  if toSend.isEmpty && !(← getc).keys.oldMACKeys.isEmpty then
+    tryCatch (do
+        let (dm, _) ← genDataMsgWithFlag K [] messageFlagIgnoreUnreadable []
+        let m ← wrapMessageHeader msgTypeData dm.serialize
+        pure [m])
+      (fun _ => pure [])
+  else pure toSend
+
+/-- repaired code (C06/C18): a message that did not complete a key exchange — it was rejected (`e` is an error),
+    or the exchange is still under way afterwards (`after ≠ none`), or there was none to complete
+    (`before = none`: the message was ignored) — triggers no retransmission: the computation *is* `pure []`,
+    so nothing is sent, no state changes, and what waits for retransmission keeps waiting -/
+theorem retransmitAfterCompletedExchange_skip (K : Crypto) (before after : AuthState) (e : Option Err)
+    (h : before = .none ∨ after ≠ .none ∨ e ≠ none) :
+    retransmitAfterCompletedExchange K before after e = pure [] := by
+  unfold retransmitAfterCompletedExchange
+  cases before <;> cases after <;> cases e <;> first | rfl | (exfalso; simp at h)
+
+/-- the same as a run: the result is `[]` and the final state is the start state -/
+theorem retransmitAfterCompletedExchange_skip_run (K : Crypto) (before after : AuthState) (e : Option Err)
+    (h : before = .none ∨ after ≠ .none ∨ e ≠ none) (s : MState) :
+    runM (retransmitAfterCompletedExchange K before after e) s = .ok (.ok [], s) := by
+  rw [retransmitAfterCompletedExchange_skip K before after e h]; rfl
+
+example : (AuthState.none = .none ∨ AuthState.awaitingDHKey ≠ .none ∨ (Option.none : Option Err) ≠ none) :=
+  Or.inl rfl
+example : (AuthState.awaitingSig [] = .none ∨ AuthState.awaitingSig [] ≠ .none ∨
+    (some Err.invalidMessage : Option Err) ≠ none) := Or.inr (Or.inl (by simp))
+
+/-- an authentication state that did not change cannot be a completed exchange -/
+theorem retransmitAfterCompletedExchange_same (K : Crypto) (st : AuthState) (e : Option Err) :
+    retransmitAfterCompletedExchange K st st e = pure [] := by
+  refine retransmitAfterCompletedExchange_skip K st st e ?_
+  cases st
+  · exact Or.inl rfl
+  all_goals exact Or.inr (Or.inl (by simp))
+
+/-- the completed case: an exchange was under way (`before ≠ none`), is over (`after = none`) and no error -/
+theorem retransmitAfterCompletedExchange_completed (K : Crypto) (before : AuthState) (h : before ≠ .none) :
+    retransmitAfterCompletedExchange K before .none none = retransmitOrReveal K := by
+  unfold retransmitAfterCompletedExchange retransmitOrReveal
+  cases before <;> first | rfl | exact absurd rfl h
 
 /-! ## B. instance tags (C15) -/
 
